@@ -61,6 +61,22 @@ def run(ctx, R):
              "this call), and the process then panics instead of failing or raising an error" % (short(c[0]), bad), F.where(c[0]))
     R.floor("io::Result values in the file-system primitives", n_io, 10)
 
+    # "agree with the operating system's view": the primitives that look a path up must resolve it the same way. The
+    # existence tests follow symbolic links (fs::metadata), so the size and time of a path that file_exists/1 accepted
+    # are those of the file it names; a sibling that looks at the link itself (symlink_metadata) answers for another object.
+    looks = {}
+    for nm in ("file_size", "file_exists", "directory_exists", "file_time"):
+        c = [p for p in F.items if re.search(r"system_calls::<impl machine::Machine>::%s$" % nm, p)][0]
+        kinds = sorted({(x.get("resolved") or x.get("callee") or "").rsplit("::", 1)[-1] for x in walk(F.hir(c)["body"])
+                        if x["k"] in ("Call", "MethodCall") and re.search(r"(^|::)(symlink_metadata|metadata)$", x.get("resolved") or x.get("callee") or x.get("name") or "")})
+        looks[nm] = (kinds, c)
+    n_look = sum(1 for k, _ in looks.values() if k)
+    R.floor("path lookups in the existence/size/time primitives", n_look, 4)
+    for nm, (kinds, c) in sorted(looks.items()):
+        R.ob("C48:lookup-follows-links-like-its-siblings:%s" % nm, kinds == ["metadata"],
+             "%s looks its path up with %s; the sibling primitives follow symbolic links (fs::metadata): for a link to a file, file_exists/1 succeeds and this "
+             "primitive answers for the link itself (its size is the length of the target's name)" % (nm, kinds or "no metadata call"), F.where(c))
+
     # directory_files/2 lists what the operating system lists: inside the loop over read_dir's entries, every `continue`
     # comes after the entry was pushed onto the result (no entry is skipped silently; an entry whose name is not valid
     # text ends in an error, not in a shorter list)
